@@ -94,6 +94,8 @@ class Leg:
     nt_floor: float = 0.2
     rule: str = ""
     exhaustive_note: str = ""
+    fuzz_runs: int = 0  # thorough tier: additional atheris campaign over the same strategy (optional engine)
+    fuzz_modules: tuple = ("inferno.core.infrastructure",)
 
 
 # --------------------------------------------------------------------------------------
@@ -291,8 +293,42 @@ def run_leg_shard(prop: str, leg: Leg, tier: str, seed: int, shard: int, nshards
     return st.to_json()
 
 
+def _fuzz_worker(prop, legname, runs, seed):
+    """Spawns the atheris campaign in a subprocess (libFuzzer owns the process exit)."""
+    import shutil
+    import subprocess
+    import tempfile
+
+    tmp = tempfile.mkdtemp(prefix="verif_fuzz_")
+    out = os.path.join(tmp, "out.json")
+    try:
+        leg_mods = []
+        from . import registry
+
+        mod = registry.load(prop)
+        leg = next(l for l in mod.LEGS if l.name == legname)
+        leg_mods = list(leg.fuzz_modules)
+        r = subprocess.run([sys.executable, "-m", "pbt.fuzz", prop, legname, str(runs), str(seed), out] + leg_mods,
+                           capture_output=True, text=True, cwd=ROOT, timeout=3 * 3600)
+        if not os.path.exists(out):
+            return {"evaluations": 0, "nontrivial": [], "classes": {}, "ambiguous": 0, "known_hits": {}, "excluded_hits": 0,
+                    "samples": [], "wall_s": 0.0, "failures": [], "fuzz_execs": 0,
+                    "note": "atheris campaign unavailable: " + (r.stderr or r.stdout)[-300:]}
+        with open(out) as f:
+            d = json.load(f)
+        d["note"] = f"atheris exit {r.returncode}"
+        return d
+    finally:
+        shutil.rmtree(tmp, ignore_errors=True)
+
+
 def _worker(args):
     prop, legname, tier, seed, shard, nshards = args
+    if shard == "fuzz":
+        try:
+            return (legname, -1, _fuzz_worker(prop, legname, nshards, seed), None)
+        except BaseException as e:  # noqa: BLE001
+            return (legname, -1, None, "".join(traceback.format_exception(e))[-3000:])
     try:
         import torch
 
@@ -411,6 +447,8 @@ def run_property(prop: str, tier: str, seed: int, only_legs: list[str] | None = 
             n = int(os.environ["VERIF_SHARDS"])
         for s in range(n):
             tasks.append((prop, leg.name, tier, seed, s, n))
+        if tier == "thorough" and leg.fuzz_runs and leg.strategy is not None and not os.environ.get("VERIF_NOFUZZ"):
+            tasks.append((prop, leg.name, tier, seed, "fuzz", int(leg.fuzz_runs * float(os.environ.get("VERIF_SCALE", "1")))))
     nproc = min(int(os.environ.get("VERIF_JOBS", "16")), max(1, len(tasks)))
     results: dict[str, list[dict]] = {l.name: [] for l in legs}
     errors: list[str] = []
@@ -420,8 +458,16 @@ def run_property(prop: str, tier: str, seed: int, only_legs: list[str] | None = 
         ctx = mp.get_context("spawn")
         with ctx.Pool(nproc, maxtasksperchild=1) as pool:
             outs = list(pool.imap_unordered(_worker, tasks, chunksize=1))
+    fuzz_info = {}
     for legname, shard, res, err in sorted(outs, key=lambda o: (o[0], o[1])):
-        if err is not None:
+        if shard == -1:  # optional engine: never a harness error, the claim does not rest on it
+            if err is not None or not res.get("fuzz_execs"):
+                fuzz_info[legname] = {"fuzz_execs": 0, "note": (err or res.get("note", ""))[-300:]}
+                continue
+            fuzz_info[legname] = {"fuzz_execs": res["fuzz_execs"], "note": res.get("note", "")}
+            res["is_fuzz"] = True
+            results[legname].append(res)
+        elif err is not None:
             errors.append(f"leg {legname} shard {shard}:\n{err}")
         else:
             results[legname].append(res)
@@ -459,7 +505,14 @@ def run_property(prop: str, tier: str, seed: int, only_legs: list[str] | None = 
                 samples.append({"leg": leg.name, "case": s})
         total_eval += ev
         all_nt.update(f"{leg.name}:{d}" for d in nt)
-        frac = (len(nt) / ev) if ev else 0.0
+        # vacuity is judged on the generated (Hypothesis / enumerated) cases only; the optional
+        # coverage-guided campaign starts from tiny inputs and is reported separately
+        ev_h = sum(r["evaluations"] for r in rs if not r.get("is_fuzz"))
+        nt_h = set()
+        for r in rs:
+            if not r.get("is_fuzz"):
+                nt_h.update(r["nontrivial"])
+        frac = (len(nt_h) / ev_h) if ev_h else 0.0
         cov_legs[leg.name] = {
             "evaluations": ev,
             "distinct_nontrivial": len(nt),
@@ -495,6 +548,7 @@ def run_property(prop: str, tier: str, seed: int, only_legs: list[str] | None = 
             "known_finding_lines": known_lines,
             "exhaustive": False,
             "exhaustive_sublegs": [l.name for l in legs if l.enumerate is not None],
+            "fuzz": fuzz_info,
         },
         "assumptions": list(getattr(mod, "ASSUMPTIONS", [])),
         "wall_s": round(wall, 2),
